@@ -607,7 +607,8 @@ theorem natStr_clean (n : Nat) : hasCtl (natStr n) = false := by
 /-- **HeaderProperty get-after-set**, for every row of the generated table (`Gen.rhProps`: the
 attributes that exist in the source): on a thread that has a dict, setting the attribute to a text
 `s` without CR/LF/NUL succeeds and a row without reader (`content_type`) reads `s` back; a row with
-the `int` reader (`content_length`) set to a natural number `n` reads back the integer `n`;
+the `int` reader (`content_length`) set to a natural number `n` of at most `Gen.intMaxStrDigits` digits (the interpreter's
+`int(str)` limit, beyond which the `int` reader raises) reads back the integer `n`;
 deleting it afterwards succeeds and a second delete is `KeyError`. -/
 theorem hp_get_after_set (i : Nat) (row : HPRow) (hrow : hpRows[i]? = some row) (h : HD) (t : Tid) (f : Nat)
     (d : Store) (hd : tsGet h t = .ok d) (rd fmt : Except Err Str) :
@@ -617,7 +618,7 @@ theorem hp_get_after_set (i : Nat) (row : HPRow) (hrow : hpRows[i]? = some row) 
         (row.reader.isEmpty → stepH h' t f (.propGet i rd) = (h', none, .ok (.entry (.one s)))) ∧
         (stepH h' t f (.propDel i)).2.2 = .ok .none ∧
         (stepH (stepH h' t f (.propDel i)).1 t f (.propDel i)).2.2 = .error .keyError) ∧
-    (∀ n : Nat, row.writer.isEmpty → row.reader = "int".toList →
+    (∀ n : Nat, (natStr n).length ≤ Ombott.Gen.intMaxStrDigits → row.writer.isEmpty → row.reader = "int".toList →
       ∃ h', stepH h t f (.propSet i (.int n) fmt) = (h', none, .ok .none) ∧
         stepH h' t f (.propGet i rd) = (h', none, .ok (.int n))) := by
   constructor
@@ -640,7 +641,7 @@ theorem hp_get_after_set (i : Nat) (row : HPRow) (hrow : hpRows[i]? = some row) 
         · rfl
         · intro x hx; simp only [List.mem_filter] at hx; simpa using hx.2
       simp [stepH, hrow, tsGet_tsSet_self, dget_dset_self, hdel]
-  · intro n hw hr
+  · intro n hlim hw hr
     have hwr : hpWrite row (.int n) fmt = .ok (.int n) := by unfold hpWrite; simp [hw]
     have his : intStr (n : Int) = natStr n := by simp [intStr]
     have hv : hval (.int n) = .ok (natStr n) := by
@@ -650,7 +651,7 @@ theorem hp_get_after_set (i : Nat) (row : HPRow) (hrow : hpRows[i]? = some row) 
     refine ⟨tsSet h t (dset d row.name (.one (natStr n))), ?_, ?_⟩
     · simp [stepH, hrow, hwr, hv, hd, hset]
     · have hne : row.reader.isEmpty = false := by rw [hr]; decide
-      simp [stepH, hrow, tsGet_tsSet_self, Except.bind, hpRead, hne, hr, dget_dset_self, pyInt_natStr]
+      simp [stepH, hrow, tsGet_tsSet_self, Except.bind, hpRead, hne, hr, dget_dset_self, pyIntLim_natStr n hlim]
 
 /-- the table has the rows the scope names, with these readers / writers / defaults (re-checked
 whenever the source's attributes change) -/
